@@ -47,8 +47,8 @@ class Prop(Check):
         "Proc.C33_pinned_nchar_false",
     ]
     DRIVER = "Drivers/Proc.lean"
-    QUICK_CASES = 450
-    THOROUGH_CASES = 20000
+    QUICK_CASES = 390
+    THOROUGH_CASES = 12000
     RULE = ("generated models with one failing processor call: object processor (own / abstract rule; root, inner, "
             "imported-file objects) or match processor (base types, regex, sequence, nested match rules), raising "
             "TextXError/TextXSemanticError with a random subset of location attributes supplied, or ValueError/KeyError, "
@@ -325,14 +325,20 @@ class Prop(Check):
                 del c["reg"][i]
                 yield c
         if spec["target"]["kind"] == "obj":
-            keep = spec["target"]["uid"]
-            helper = C13()
-            for cand in helper.shrink(dict(case, script=[])):
-                from harness.props.c13 import case_objs
+            from harness.props.c13 import case_objs
 
-                if keep in case_objs(cand):
+            keep, rule = spec["target"]["uid"], spec["target"]["rule"]
+            helper = C13()
+            n = 0
+            for cand in helper.shrink(dict(case, script=[])):
+                # the failing call must stay: same object, same registered rule, same holding attribute type
+                if keep in case_objs(cand) and rule in cand["reg"] and (
+                        pg.render(cand, cand["layout"]).objs[keep]["decl"] == pg.render(case, case["layout"]).objs[keep]["decl"]):
                     cand.pop("script", None)
+                    n += 1
                     yield cand
+                if n >= 40:
+                    break
 
     def extra_search(self, rng, tier, broken):
-        return list(self.gen(rng, 1500, tier))
+        return list(self.gen(rng, 600 if tier == "quick" else 4000, tier))
